@@ -249,3 +249,129 @@ def policies():
     p = {k: None for k in POLICY}
     out.append(('empty policy', p))
     return out
+
+
+# ---------------------------------------------------------------------------------------------------------------------------------------
+# the policy file: Policy.create (peer -> text) and the constructor (text -> policy state), both by interpretation
+# ---------------------------------------------------------------------------------------------------------------------------------------
+STATE_FIELDS = ('_name', '_version', '_banner', '_compressions', '_host_keys', '_optional_host_keys', '_kex', '_ciphers', '_macs', '_hostkey_sizes', '_dh_modulus_sizes',
+                '_server_policy', '_allow_algorithm_subset_and_reordering', '_allow_larger_keys')
+
+
+class _LoadError(Exception):
+    pass
+
+
+def _lib(call, e, interp):
+    import json as _json
+    t = unparse(call.func)
+    if t == 'json.loads' and len(call.args) == 1:
+        v = interp.value(call.args[0], e)
+        if isinstance(v, str):
+            try:
+                return (True, _json.loads(v))
+            except ValueError as ex:
+                raise _LoadError('json.loads raises %s' % ex)
+    if t == 'json.dumps' and len(call.args) == 1 and not call.keywords:
+        v = interp.value(call.args[0], e)
+        try:
+            return (True, _json.dumps(v))
+        except TypeError as ex:
+            raise _LoadError('json.dumps raises %s' % ex)
+    if t == 'int' and len(call.args) == 1:
+        v = interp.value(call.args[0], e)
+        if isinstance(v, str):
+            try:
+                return (True, int(v))
+            except ValueError as ex:
+                raise _LoadError('int() raises %s' % ex)
+    if t == 'print':
+        return (True, None)
+    if t in ('copy.deepcopy', 'deepcopy') and len(call.args) == 1:
+        return (True, copy.deepcopy(interp.value(call.args[0], e)))
+    if t in ('date.today', 'datetime.date.today'):
+        return (True, '<today>')
+    if isinstance(call.func, ast.Attribute) and call.func.attr == 'strftime':
+        return (True, '2026/01/01')
+    return None
+
+
+def _policy_resolver(repo):
+    def resolver(call):
+        f = call.func
+        if isinstance(f, ast.Attribute) and isinstance(f.value, ast.Name) and f.value.id in ('self', 'Policy', 'cls') and repo.has_func('policy', 'Policy.' + f.attr) and f.attr not in ('__init__',):
+            return repo.func('policy', 'Policy.' + f.attr)
+        return None
+    return resolver
+
+
+def load(repo, consts, text):
+    """Policy(policy_data=text) interpreted -> {field: value} of the policy state, or ('error', message) when the constructor raises"""
+    init = repo.func('policy', 'Policy.__init__')
+    params = [a.arg for a in init.args.args]
+    need = {'policy_file', 'policy_data', 'manual_load', 'json_output'}
+    if not need <= set(params):
+        raise AnalysisError('Policy.__init__: parameters are %s' % params)
+    env = dict(consts)
+    env.update({params[0]: Opaque(), 'policy_file': None, 'policy_data': text, 'manual_load': False, 'json_output': False, 'sys.stdout': '<stdout>', 'sys.stderr': '<stderr>'})
+    for p_, d in zip(params[len(params) - len(init.args.defaults):], init.args.defaults):
+        if p_ not in need:
+            env[p_] = ast.literal_eval(d)
+    try:
+        finals = Interp(call_hook=_lib, resolver=_policy_resolver(repo), budget=400000, try_normal_path=True).run(init.body, env)
+    except _LoadError as ex:
+        return ('error', str(ex))
+    except Unknown as ex:
+        raise AnalysisError('Policy.__init__ cannot be interpreted on a policy text: %s' % ex)
+    if len(finals) != 1 or finals[0].get('<forks>'):
+        raise AnalysisError('Policy.__init__ does not evaluate on a single path (forks %s)' % [f.get('<forks>') for f in finals][:2])
+    fe = finals[0]
+    if fe.get('<crash>'):
+        return ('error', 'crash: %s' % fe['<crash>'])
+    if fe.get('<outcome>') == 'raise':
+        return ('error', 'raises %s' % (fe.get('<raise>') or 'an exception'))
+    pre = params[0] + '.'
+    return {k[len(pre):]: v for k, v in fe.items() if isinstance(k, str) and k.startswith(pre) and k[len(pre):] in STATE_FIELDS}
+
+
+def create(repo, consts, peer, banner='SSH-2.0-OpenSSH_9.9', client_audit=False, source='host'):
+    """Policy.create(source, banner, kex, client_audit) interpreted on a peer -> the policy text"""
+    cr = repo.func('policy', 'Policy.create')
+    params = [a.arg for a in cr.args.args]
+    if params != ['source', 'banner', 'kex', 'client_audit']:
+        raise AnalysisError('Policy.create: parameters are %s' % params)
+    party = Tok('<kex.server>', {'encryption': list(peer['encryption']), 'mac': list(peer['mac']), 'compression': list(peer['compression']), 'languages': ['']})
+    # the other direction of the KEXINIT carries different lists: a policy covers the server-to-client lists (the ones the report shows)
+    other = Tok('<kex.client>', {'encryption': ['other-direction-cipher'] + list(peer['encryption'])[:1], 'mac': ['other-direction-mac'], 'compression': ['other-direction-compression'], 'languages': ['']})
+    kex = Tok('<kex>', {'key_algorithms': list(peer['key_algorithms']), 'kex_algorithms': list(peer['kex_algorithms']), 'server': party, 'client': other})
+    env = dict(consts)
+    env.update({'source': source, 'banner': banner, 'kex': kex, 'client_audit': client_audit})
+
+    def hook(call, e, interp):
+        t = unparse(call.func)
+        if t.endswith('.host_keys') and not call.args:
+            hk = copy.deepcopy(peer['host_keys'])
+            for v in hk.values():
+                v.setdefault('raw_hostkey_bytes', b'<blob>')
+            return (True, hk)
+        if t.endswith('.dh_modulus_sizes') and not call.args:
+            return (True, dict(peer['dh_modulus_sizes']))
+        if t == 'str' and len(call.args) == 1:
+            v = interp.value(call.args[0], e)
+            if isinstance(v, str):
+                return (True, v)
+        return _lib(call, e, interp)
+    try:
+        finals = Interp(call_hook=hook, attr_hook=_attr_hook, resolver=_policy_resolver(repo), budget=200000, try_normal_path=True).run(cr.body, env)
+    except _LoadError as ex:
+        return ('error', str(ex))
+    except Unknown as ex:
+        raise AnalysisError('Policy.create cannot be interpreted: %s' % ex)
+    if len(finals) != 1 or finals[0].get('<forks>'):
+        raise AnalysisError('Policy.create does not evaluate on a single path (forks %s)' % [f.get('<forks>') for f in finals][:2])
+    fe = finals[0]
+    if fe.get('<crash>'):
+        return ('error', 'crash: %s' % fe['<crash>'])
+    if not isinstance(fe.get('<return>'), str):
+        raise AnalysisError('Policy.create: returned text not computable (%r)' % (fe.get('<return>'),))
+    return fe['<return>']
